@@ -91,6 +91,22 @@ def gen_T12():
     tk = ast.unparse(find_def(tree('src/irclib.py'), 'takeMsg', 'Irc'))
     need("if not world.testing:\n                assert not msg.tagged('emulatedEcho')\n            msg.tag('emulatedEcho', True)" in tk,
          'Irc.takeMsg: emulated echo tagging changed')
+    # ---- irc.prefix maintenance: feedMsg learns it, doNick follows the bot's own NICK (nick first) ----
+    ilt = tree('src/irclib.py')
+    fm = ast.unparse(find_def(ilt, 'feedMsg', 'Irc'))
+    need('if msg.nick == self.nick and self.prefix != msg.prefix:\n        self.prefix = msg.prefix' in fm,
+         'Irc.feedMsg: learning of the own prefix changed')
+    dn = find_def(ilt, 'doNick', 'Irc')
+    first = [n for n in dn.body if isinstance(n, ast.If)]
+    need(len(first) >= 1 and ast.unparse(first[0].test) == 'msg.nick == self.nick', 'Irc.doNick: own-nick test changed')
+    own = '\n'.join(ast.unparse(x) for x in first[0].body)
+    need(own == 'newNick = msg.args[0]\nself.nick = newNick\nnick, user, domain = ircutils.splitHostmask(msg.prefix)\n'
+                'self.prefix = ircutils.joinHostmask(self.nick, user, domain)',
+         'Irc.doNick: own-nick branch changed (the nick must be updated before the prefix is rebuilt): ' + own.replace('\n', ' ; '))
+    iu2 = tree('src/ircutils.py')
+    need("'%s!%s@%s' % (nick, ident, host)" in ast.unparse(find_def(iu2, 'joinHostmask')), 'joinHostmask changed')
+    sh = ast.unparse(find_def(iu2, 'splitHostmask'))
+    need("nick, rest = hostmask.rsplit('!', 1)" in sh and "user, host = rest.rsplit('@', 1)" in sh, 'splitHostmask changed')
     # ---- utils/str.py ----
     u = tree('src/utils/str.py')
     sb = find_def(u, 'splitBytes')
